@@ -1,4 +1,6 @@
 import FsutilModel.Model.CopyB
+import FsutilModel.Lemmas.C13Mode
+import FsutilModel.Lemmas.C17Perm
 /-! # C13 — copy preserves metadata / applies the requested options (entry level) -/
 namespace Fsm.C13
 open C
@@ -29,6 +31,20 @@ theorem mode_option_symlink (a : Args) (src : StatE) (ex : List (Path × Path)) 
 theorem mode_option_other (a : Args) (m : Nat) (hm : a.mode = some m) (hms : a.modeStr = none) (src : StatE) (ex : List (Path × Path)) (hs : src.isSymlink = false) :
     (applyInfo a src ex).1.mode = (src.mode &&& (4294967295 - permMask)) ||| goPermOfUnix m := by
   simp [applyInfo, hs, hm, hms]
+
+/-- The octal mode option replaces **exactly** the permission and special bits: the permission/setuid/
+setgid/sticky bits of the copied entry are those requested, and every other bit (the entry type) is
+the source's — for every source mode and every requested mode. -/
+theorem mode_option_sets_exactly_perm_bits (a : Args) (m : Nat) (hm : a.mode = some m) (hms : a.modeStr = none) (src : StatE)
+    (ex : List (Path × Path)) (hs : src.isSymlink = false) :
+    (applyInfo a src ex).1.mode &&& permMask = goPermOfUnix m ∧
+    (applyInfo a src ex).1.mode &&& typeMask = src.mode &&& typeMask := by
+  rw [mode_option_other a m hm hms src ex hs]
+  exact set_perm_bits src.mode (goPermOfUnix m) (goPerm_within_mask m)
+
+/-- asking for the mode an entry already has (its own bits, as unix bits) changes nothing below 2^32 -/
+theorem mode_option_with_own_bits (m : Nat) : goPermOfUnix (T.unixPerm m) = m &&& permMask :=
+  perm_round_trip m
 
 /-- Under **every** option combination the options touch only their own field: name, link target,
 size and device numbers of a copied entry are the source's, whatever chown / mode / utime say. -/
